@@ -53,6 +53,10 @@ def main() -> int:
             "quoted-noise": astgen.Opts(quote=QUOTE[d], noise=noise_fn(r, 0.5), kw_case="lower"),
             "double-semicolon": astgen.Opts(trailing=";;"),
             "no-semicolon-nl": astgen.Opts(trailing="\n\n"),
+            "semicolon-comment-semicolon": astgen.Opts(trailing="; /* c */ ;"),
+            "semicolons-line-comment": astgen.Opts(trailing=";; -- done"),
+            "semicolon-comment-line-semicolon": astgen.Opts(trailing=";\n-- c\n;\n"),
+            "comment-before-semicolons": astgen.Opts(trailing=" /* end */ ; ;", noise=noise_fn(r, 0.2)),
             "no-as": astgen.Opts(use_as=False),
         }
         batch, meta = [], []
@@ -95,7 +99,7 @@ def main() -> int:
             for s, rec, b, g in zip(stmts, recs, base, t2tie.summaries(recs)):
                 ck.count()
                 dist["variants"]["hash-comment"] = dist["variants"].get("hash-comment", 0) + 1
-                if d == "non-validating" and re.search(r"union\s*(#[^\n]*)?\n[^a-z]*all\b", rec["sql"], re.I | re.S):
+                if d == "non-validating" and re.search(r"union(?! all\b)(\s|#[^\n]*\n)+all\b", rec["sql"], re.I):
                     continue        # recorded: K-C07-1 (replayed below)
                 if b.startswith("ERR:InvalidSyntax") or g.startswith("ERR:InvalidSyntax") or "#" not in rec["sql"]:
                     dist["rejected_by_parser"] += b.startswith("ERR") or g.startswith("ERR")
@@ -133,7 +137,7 @@ def main() -> int:
     ck.conclude(spec_failures, disagreements, proofs_ok,
                 "correspondence T2 (rewritten text) between Tree/*.v (theorems c07_*) and sqllineage/core/parser/sqlfluff",
                 "every rewrite of every generated statement was compared with the plain text on the implementation; no failing input")
-    return ck.finish(rule="%d generated statements x 11 rewrites (noise at token boundaries: line breaks, line and block comments containing ';', '# ' comments under mysql and the legacy analyzer; keyword case; "
+    return ck.finish(rule="%d generated statements x 15 rewrites (noise at token boundaries: line breaks, line and block comments containing ';', '# ' comments under mysql and the legacy analyzer; keyword case; "
                           "identifier case; quoting per dialect; ';;'; missing ';'; optional AS) x dialects %s; corpus statements padded with blank lines and "
                           "semicolons; non-trivial = distinct (dialect, rewrite, SQL) with lineage" % (n, ",".join(dialects)))
 
